@@ -141,22 +141,25 @@ theorem region_all (ed : Ed) (loc : Bytes) (rc : Nat) (b e : Int) (ed' : Ed)
         · cases h; exact ⟨ha, Or.inr rfl, fun h => by omega, fun _ h => by omega⟩
         · rename_i h7
           split at h
-          all_goals
-            rename_i hadj
+          · cases h; exact ⟨ha, Or.inr rfl, fun h => by omega, fun _ h => by omega⟩
+          · rename_i hrev
             split at h
-            · rename_i h1
-              cases h
-              simp only [Bool.or_eq_true, decide_eq_true_eq] at h1
-              exact ⟨ha, Or.inr rfl, fun h => by omega, fun _ _ _ => by omega⟩
-            · split at h
-              · rename_i h1 h2
+            all_goals
+              rename_i hadj
+              split at h
+              · rename_i h1
                 cases h
-                simp only [Bool.or_eq_true, decide_eq_true_eq] at h2
+                simp only [Bool.or_eq_true, decide_eq_true_eq] at h1
                 exact ⟨ha, Or.inr rfl, fun h => by omega, fun _ _ _ => by omega⟩
-              · rename_i h1 h2
-                cases h
-                simp only [Bool.or_eq_true, Bool.and_eq_true, beq_iff_eq, decide_eq_true_eq, not_or, not_and, Int.not_lt, Int.not_le] at h1 h2 hadj
-                exact ⟨ha, Or.inl rfl, fun _ => ⟨by omega, by omega, by omega, fun _ _ => by omega⟩, fun h => by omega⟩
+              · split at h
+                · rename_i h1 h2
+                  cases h
+                  simp only [Bool.or_eq_true, decide_eq_true_eq] at h2
+                  exact ⟨ha, Or.inr rfl, fun h => by omega, fun _ _ _ => by omega⟩
+                · rename_i h1 h2
+                  cases h
+                  simp only [Bool.or_eq_true, Bool.and_eq_true, beq_iff_eq, decide_eq_true_eq, not_or, not_and, Int.not_lt, Int.not_le] at h1 h2 hadj
+                  exact ⟨ha, Or.inl rfl, fun _ => ⟨by omega, by omega, by omega, fun _ _ => by omega⟩, fun h => by omega⟩
 
 theorem region_fail00 (ed : Ed) (loc : Bytes) (ed' : Ed) (h : exRegion ed loc = some ((1, 0, 0), ed')) :
     ed'.len = 0 := (region_all ed loc 1 0 0 ed' h).2.2.2 rfl rfl rfl
